@@ -87,6 +87,9 @@ public:
             locker.unlock();
             QThread::msleep(10);
             locker.relock();
+            // Another thread may have completed the stop while the mutex was released
+            if (!m_thread)
+                return;
         }
 
         QTLOGGER_VERIF_POINT("reset.quit");
